@@ -283,3 +283,8 @@ package html
 //@   opaque IndividualNode.*, NameNode.*, BirthNode.*, DeathNode.*, BaptismNode.*, BurialNode.*, DateNode.*, PlaceNode.*, SexNode.*
 //@   assigns alloc
 //@   trustframe
+// The -living flag: only the three documented values come out of the parser
+// (anything else panics), which is what every `requires valid` above relies on.
+//@ func NewLivingVisibility
+//@   props C17
+//@   ensures valid: result == LivingVisibilityShow || result == LivingVisibilityHide || result == LivingVisibilityPlaceholder
